@@ -39,6 +39,7 @@ type Info struct {
 	PoolPuts     int         `json:"pool_puts"`
 	SyncRewrite  int         `json:"sync_rewrites"`
 	AtomicSites  int         `json:"atomic_sites"`
+	AtomicArgs   int         `json:"atomic_args"` // value operands of sync/atomic calls wrapped in SyncArg
 	AtomicVars   []string    `json:"atomic_vars"`
 	ScratchFuncs []scratchFn `json:"-"`
 	Knobs        []string    `json:"knobs"`
@@ -209,6 +210,7 @@ func Run(repo, out, rtDir string) (*Info, error) {
 			imp.pkgs[path] = pkg
 			rootPkg = pkg
 		}
+		curPkg = pkg
 		for _, j := range sel {
 			if err := seamEdits(fset, j, tinfo, info); err != nil {
 				return nil, err
@@ -283,7 +285,7 @@ func Run(repo, out, rtDir string) (*Info, error) {
 	return info, nil
 }
 
-var rootPkg *types.Package
+var rootPkg, curPkg *types.Package
 
 // modImporter resolves the module's own root package (imported by context) from
 // the package we just checked, everything else from source.
@@ -387,6 +389,92 @@ func yieldEdits(fset *token.FileSet, j *fileJob, id *int, info *Info) {
 	}
 }
 
+// wrapAtomicArgs opens the window between the evaluation of the value operands
+// of a sync/atomic call and the call itself (the `b.next` of
+// `CompareAndSwapPointer(&head, p, unsafe.Pointer(b.next))` is read before the
+// swap; statement-level yields cannot separate the two): every operand that
+// reads memory becomes verifrt.SyncArg(operand).(T), which yields after the
+// operand was evaluated.
+func wrapAtomicArgs(fset *token.FileSet, j *fileJob, ti *types.Info, info *Info, args []ast.Expr) {
+	imports := map[string]string{} // path -> local name
+	for _, im := range j.file.Imports {
+		p := strings.Trim(im.Path.Value, `"`)
+		name := ""
+		if im.Name != nil {
+			name = im.Name.Name
+		}
+		imports[p] = name
+	}
+	for _, a := range args {
+		tv, ok := ti.Types[a]
+		if !ok || tv.Value != nil || tv.IsNil() || tv.Type == nil {
+			continue
+		}
+		if _, isIface := tv.Type.Underlying().(*types.Interface); isIface {
+			continue
+		}
+		if _, isTuple := tv.Type.(*types.Tuple); isTuple {
+			continue
+		}
+		reads := false
+		ast.Inspect(a, func(n ast.Node) bool {
+			switch y := n.(type) {
+			case *ast.FuncLit:
+				return false
+			case *ast.SelectorExpr:
+				if _, isPkg := ti.Uses[identOf(y.X)].(*types.PkgName); !isPkg {
+					reads = true
+				} else if v, isVar := ti.Uses[y.Sel].(*types.Var); isVar && v != nil {
+					reads = true
+				}
+			case *ast.IndexExpr, *ast.StarExpr:
+				reads = true
+			case *ast.CallExpr:
+				if ftv, ok := ti.Types[y.Fun]; !ok || !ftv.IsType() {
+					reads = true // a real call (not a conversion)
+				}
+			case *ast.Ident:
+				if v, isVar := ti.Uses[y].(*types.Var); isVar && v.Pkg() != nil && v.Parent() == v.Pkg().Scope() {
+					reads = true // package-level variable
+				}
+			}
+			return true
+		})
+		if !reads {
+			continue
+		}
+		bad := false
+		ts := types.TypeString(tv.Type, func(p *types.Package) string {
+			if p == curPkg {
+				return ""
+			}
+			name, ok := imports[p.Path()]
+			if !ok {
+				bad = true
+				return p.Name()
+			}
+			if name == "" {
+				return p.Name()
+			}
+			if name == "." || name == "_" {
+				bad = true
+			}
+			return name
+		})
+		if bad {
+			continue
+		}
+		lo, hi := fset.Position(a.Pos()).Offset, fset.Position(a.End()).Offset
+		j.edits = append(j.edits, edit{lo, lo, "verifrt.SyncArg("}, edit{hi, hi, ").(" + ts + ")"})
+		info.AtomicArgs++
+	}
+}
+
+func identOf(e ast.Expr) *ast.Ident {
+	id, _ := e.(*ast.Ident)
+	return id
+}
+
 func isAtomicType(t types.Type) bool {
 	if p, ok := t.(*types.Pointer); ok {
 		t = p.Elem()
@@ -466,6 +554,9 @@ func seamEdits(fset *token.FileSet, j *fileJob, ti *types.Info, info *Info) erro
 				if id, ok := se.X.(*ast.Ident); ok {
 					if pn, ok := ti.Uses[id].(*types.PkgName); ok && pn.Imported().Path() == "sync/atomic" {
 						j.atom = append(j.atom, fset.Position(x.Pos()).Offset)
+						if len(x.Args) > 1 {
+							wrapAtomicArgs(fset, j, ti, info, x.Args[1:])
+						}
 						// atomic.AddInt64(&counter, 1): a plain package-level variable that is
 						// only ever touched through sync/atomic functions is synchronised state
 						if len(x.Args) > 0 {
@@ -486,6 +577,7 @@ func seamEdits(fset *token.FileSet, j *fileJob, ti *types.Info, info *Info) erro
 			}
 			if isAtomicType(sel.Recv()) {
 				j.atom = append(j.atom, fset.Position(x.Pos()).Offset)
+				wrapAtomicArgs(fset, j, ti, info, x.Args)
 				return true
 			}
 			recv := sel.Recv()
